@@ -283,7 +283,9 @@ def validate_scalar(value: Any, dtype: DataType) -> Any:
             )
         return None
 
-    vtype = type(value)
+    # classify the value as infer_kind does (isinstance based): an instance of a subclass of a
+    # ladder type is its base kind when a vector is built, so it has to be when it is written
+    vtype = infer_kind(value)
 
     # Exact match
     if vtype is dtype.kind:
